@@ -430,7 +430,9 @@ MUTANTS += [
 
 MUTANTS += [
     dict(name="revert_fix_cur_warm_relative_tol", prop="C08", file=SEL, count=2,
-         old="                > self.tolerance\n                * max(1.0, np.linalg.norm(np.take(X, [c], axis=self._axis)))\n", new="                > self.tolerance\n"),
+         old="                > max(self.tolerance, 100 * np.finfo(self.X_current_.dtype).eps)\n                * max(1.0, np.linalg.norm(np.take(X, [c], axis=self._axis)))\n", new="                > self.tolerance\n"),
+    dict(name="revert_fix_cur_warm_float32", prop="C08", file=SEL, count=2,
+         old="                > max(self.tolerance, 100 * np.finfo(self.X_current_.dtype).eps)\n", new="                > self.tolerance\n"),
 ]
 
 MUTANTS += [
